@@ -97,6 +97,26 @@ def run(prop, tier, seed, replay=None):
         reps, other = tsan_reports(out_c)
         for key, text in reps:
             chk.violation(key + ":cold-start", text, replay_args=dict(leg="cold-tsan"))
+    # (1c) hint hammer: threads sharing one zone object, each in its own stretch of the table, answers compared with
+    # single-threaded ones (TSan build for the race detector, ASan build for speed and different timing)
+    if prop == "C13":
+        for leg, exe_h, flav, iters in (("hammer-tsan", exe_t, "tsan", 400000 if thorough else 60000),
+                                        ("hammer-asan", exe_a, "asan", 3000000 if thorough else 400000)):
+            if ra and ra.get("leg") != leg:
+                continue
+            out_h = os.path.join(chk.workdir, leg)
+            os.makedirs(out_h, exist_ok=True)
+            envh = build.san_env(flav, log_path=os.path.join(out_h, "tsan")) if flav == "tsan" else build.san_env(flav)
+            args_h = ["--mode", "hammer", "--zones", zones, "--seed", str(seed), "--rounds", "48" if thorough else "12", "--iters", str(iters),
+                      "--workers", "2", "--case-timeout", "900"]
+            if ra.get("leg") == leg and "case" in ra:
+                args_h += ["--only-case", str(ra["case"])]
+            res, rc = core.run_monitor(exe_h, args_h, envh, out_h, timeout=7200 if thorough else 1500)
+            legs.append((leg, res))
+            if flav == "tsan":
+                reps, other = tsan_reports(out_h)
+                for key, text in reps:
+                    chk.violation(key + ":hint-hammer", text, replay_args=dict(leg=leg))
     # (1b) stress under ASan (C20's log checker does not need TSan; different timing)
     if prop == "C20" and (not ra or ra.get("leg") == "stress-asan"):
         out_a = os.path.join(chk.workdir, "stress-asan")
@@ -147,6 +167,8 @@ def run(prop, tier, seed, replay=None):
                 chk.inconclusive_because("no first-load race (>= 2 loaders in the miss window) was observed")
             if not total.stat("sched:C13.distinct_schedules"):
                 chk.inconclusive_because("no schedules enumerated")
+            if not total.stat("hammer-tsan:C13.hammer_lookups") or not total.stat("hammer-asan:C13.hammer_lookups"):
+                chk.inconclusive_because("hint hammer observed nothing")
         else:
             if not total.stat("sched:C20.factory_invocations") or not total.stat("stress-asan:C20.factory_invocations"):
                 chk.inconclusive_because("factory log empty")
